@@ -78,6 +78,8 @@ pub struct Picture {
     /// 0 = command known; otherwise ACK with this code for readpicture
     pub embedded_ack: u64,
     pub file_ack: u64,
+    /// the server returns fewer bytes than the limit for some offsets (see World.tla: ChunkLen)
+    pub vary: bool,
 }
 
 #[derive(Clone, Debug)]
@@ -103,6 +105,7 @@ pub struct Sh {
     pub werr: bool,
     pub dropped: bool,
     pub max_read: usize,
+    pub max_write: usize,
     pub waker: Option<Waker>,
     pub log: Vec<Value>,
     pub progress: u64,
@@ -126,6 +129,7 @@ impl Sh {
             werr: false,
             dropped: false,
             max_read: 0,
+            max_write: 0,
             waker: None,
             log: vec![],
             progress: 0,
@@ -234,7 +238,7 @@ impl Sh {
     }
 
     /// Frame lines (without terminator) or an error line for one ordinary command.
-    fn exec(&mut self, words: &[Vec<u8>], idx: u64) -> Result<Vec<Line>, Line> {
+    fn exec(&mut self, words: &[Vec<u8>], idx: u64) -> Result<Vec<Line>, Vec<Line>> {
         let name = words[0].as_slice();
         match name {
             b"req" => {
@@ -251,7 +255,13 @@ impl Sh {
                 if fail {
                     let mut msg = b"boom ".to_vec();
                     msg.extend_from_slice(&id);
-                    Err(Line::ack(2, idx, b"req", &msg))
+                    // a failing command may already have printed part of its output before the ACK
+                    let mut ls = vec![];
+                    for i in 1..=pad {
+                        ls.push(Line::f(b"pad", i.to_string().as_bytes()));
+                    }
+                    ls.push(Line::ack(2, idx, b"req", &msg));
+                    Err(ls)
                 } else {
                     let mut ls = vec![Line::f(b"echo", &id)];
                     for i in 1..=pad {
@@ -267,15 +277,16 @@ impl Sh {
                 let pic = self.cfg.pic.clone();
                 let (src, ack) = if embedded { (pic.embedded, pic.embedded_ack) } else { (pic.file, pic.file_ack) };
                 if ack != 0 {
-                    return Err(Line::ack(ack, idx, if ack == 5 { b"" } else { name }, b"scripted error"));
+                    return Err(vec![Line::ack(ack, idx, if ack == 5 { b"" } else { name }, b"scripted error")]);
                 }
                 match src {
                     None => Ok(vec![]), // no picture from this source: an empty reply
                     Some(data) => {
                         if off > data.len() {
-                            return Err(Line::ack(2, idx, name, b"Bad file offset"));
+                            return Err(vec![Line::ack(2, idx, name, b"Bad file offset")]);
                         }
-                        let n = pic.limit.min(data.len() - off);
+                        let lim = if pic.vary && off % 3 == 1 && pic.limit > 1 { pic.limit - 1 } else { pic.limit };
+                        let n = lim.min(data.len() - off);
                         let mut ls = vec![Line::f(b"size", data.len().to_string().as_bytes())];
                         if embedded {
                             if let Some(m) = &pic.mime {
@@ -291,7 +302,7 @@ impl Sh {
                 let mut msg = b"unknown command \"".to_vec();
                 msg.extend_from_slice(name);
                 msg.push(b'"');
-                Err(Line::ack(5, idx, b"", &msg))
+                Err(vec![Line::ack(5, idx, b"", &msg)])
             }
         }
     }
@@ -320,7 +331,7 @@ impl Sh {
                             out.push(Line::lok());
                         }
                         Err(e) => {
-                            out.push(e);
+                            out.extend(e);
                             failed = true;
                             break;
                         }
@@ -386,7 +397,7 @@ impl Sh {
                         ls.push(Line::ok());
                         self.emit("cmd", ls);
                     }
-                    Err(e) => self.emit("cmd", vec![e]),
+                    Err(e) => self.emit("cmd", e),
                 }
             }
         }
@@ -478,6 +489,8 @@ impl AsyncWrite for MockIo {
             s.log.push(json!({"e": "write_err"}));
             return Poll::Ready(Err(io::Error::new(io::ErrorKind::BrokenPipe, "injected write error")));
         }
+        // a transport may accept fewer bytes than offered (short write)
+        let b = if s.max_write > 0 && b.len() > s.max_write { &b[..s.max_write] } else { b };
         s.log.push(json!({"e": "write", "n": b.len()}));
         for &c in b {
             if c == b'\n' {
